@@ -163,6 +163,14 @@ example : equals (.not (.fn 0)) (.not (.fn 0)) = false := by decide
 example : ([⟨⟨"a", "x"⟩, none, [("l", "1")]⟩, ⟨⟨"b", "y"⟩, none, []⟩] : List Workload).Perm
           [⟨⟨"b", "y"⟩, none, []⟩, ⟨⟨"a", "x"⟩, none, [("l", "1")]⟩] := List.Perm.swap _ _ _
 
+/-- three "everything" selectors: `Everything()` / an empty `LabelSelector{}` (`reqs []`) and the nil requirement slice
+of `NewSelector()` / `Parse("")` (`nilReqs`) accept the same objects; the code tells them apart (`reflect.DeepEqual`
+of a nil and an empty slice), which soundness allows — and neither is ever equal to the match-nothing selector -/
+example (fns : Nat → Obj → Bool) (o : Obj) : accept fns (.selector .nilReqs) o = accept fns (.selector (.reqs [])) o := by
+  simp [accept, Sel.matches]
+example : equals (.selector .nilReqs) (.selector (.reqs [])) = false ∧ equals (.selector .nilReqs) (.selector .nilReqs) = true ∧
+    equals (.selector .nilReqs) (.selector .nothing) = false ∧ equals (.selector (.reqs [])) (.selector .nothing) = false := by decide
+
 end KC.C17
 
 #print axioms KC.C17.equals_sound
